@@ -59,7 +59,98 @@ def chunkings(rng, data, k=2):
 
 
 def rbytes(rng, n):
-    return bytes(rng.randrange(256) for _ in range(n))
+    return rng.randbytes(n) if n > 4096 else bytes(rng.randrange(256) for _ in range(n))
+
+
+def run_each(exe, lines, env=None, workers=8):
+    """every line in a process of its own (for the few, slow, large cases)"""
+    return common.par_map(lambda l: common.run_lines(exe, [l], env=env)[0], lines, workers=workers)
+
+
+# single-write sizes aimed at the internal piece size of Pl_RC4 (64 KiB output buffer): one piece, two pieces, three
+BIG_SIZES = [1, 65535, 65536, 65537, 131071, 131072, 131073, 200001]
+
+
+def big_chunkings(rng, data, k):
+    n = len(data)
+    outs = [[data[i:i + 1000] for i in range(0, n, 1000)]]
+    for _ in range(k):
+        cuts = sorted(set(rng.randrange(0, n + 1) for _ in range(rng.randint(1, 4))))
+        cs, start = [], 0
+        for c in cuts:
+            cs.append(data[start:c])
+            start = c
+        cs.append(data[start:])
+        outs.append([c for c in cs if c] or [data])
+    return outs
+
+
+def part_primbig(chk, drv, runner, quick):
+    """Pl_RC4 and Pl_AES_PDF driven in-process with ONE large write() and with many small / random writes of the same
+    data, against the extracted models on the whole buffer. RC4: the model is run once per key on the longest buffer;
+    a shorter input is a prefix of it and rc4 k (firstn n d) = firstn n (rc4 k d) (theorem rc4_prefix)."""
+    rng = chk.rng
+    D = rbytes(rng, max(BIG_SIZES))
+    sizes = BIG_SIZES if not quick else [1, 65536, 65537, 131072, 131073, 200001]
+    keys = [rbytes(rng, 5), rbytes(rng, 16)] if not quick else [rbytes(rng, rng.choice([5, 16]))]
+    aes_key = rbytes(rng, rng.choice([16, 32]))
+    iv = rbytes(rng, 16)
+    # model side (slow: about 45 us per byte for the list-based RC4 model)
+    mlines = ["rc4 %s %s" % (hexs(k), hexs(D)) for k in keys]
+    aes_sizes = sizes if not quick else [65537, 131073, 200001]
+    for n in aes_sizes:
+        mlines.append("aespl e %s 1 r:%s 1 %s" % (hexs(aes_key), hexs(iv), hexs(D[:n])))
+    mout = run_each(runner, mlines)
+    rc4_model = {k: bytes.fromhex(o) if not o.startswith(("?", "!")) else None for k, o in zip(keys, mout)}
+    aes_model = dict(zip(aes_sizes, mout[len(keys):]))
+    # decrypting what the model encrypted must give the data back (model of the decrypt direction, one size)
+    n0 = aes_sizes[-1]
+    dec_line = "aespl d %s 1 r:- 1 %s" % (hexs(aes_key), aes_model[n0])
+    jobs = []     # (what, line, expected hex, description)
+    for k in keys:
+        for n in sizes:
+            exp = hexs(rc4_model[k][:n]) if rc4_model[k] is not None else "?model"
+            for ci, cs in enumerate([[D[:n]]] + (big_chunkings(rng, D[:n], 1 if quick else 3) if n > 1 else [])):
+                jobs.append(("rc4", "rc4pl %s %s" % (hexs(k), cstr(cs)), exp,
+                             {"pipeline": "Pl_RC4", "key": k.hex(), "length": n, "writes": [len(c) for c in cs][:12], "single_write": ci == 0}))
+    for n in aes_sizes:
+        for ci, cs in enumerate([[D[:n]]] + big_chunkings(rng, D[:n], 1 if quick else 3)):
+            jobs.append(("aes", "aespl e %s 1 r:%s 1 %s" % (hexs(aes_key), hexs(iv), cstr(cs)), aes_model[n],
+                         {"pipeline": "Pl_AES_PDF encrypt", "key": aes_key.hex(), "length": n, "writes": [len(c) for c in cs][:12], "single_write": ci == 0}))
+    ct = bytes.fromhex(aes_model[n0]) if not aes_model[n0].startswith(("?", "!")) else b""
+    for ci, cs in enumerate([[ct]] + big_chunkings(rng, ct, 1 if quick else 3)):
+        jobs.append(("aesd", "aespl d %s 1 r:- 1 %s" % (hexs(aes_key), cstr(cs)), hexs(D[:n0]),
+                     {"pipeline": "Pl_AES_PDF decrypt", "key": aes_key.hex(), "length": len(ct), "writes": [len(c) for c in cs][:12], "single_write": ci == 0}))
+    mdec = run_each(runner, [dec_line])[0]
+    if mdec != hexs(D[:n0]):
+        chk.violation({"kind": "check-crashed", "part": "prim-big", "what": "the model of Pl_AES_PDF does not decrypt its own encryption of %d bytes" % n0}, no_input=True)
+    for prov in (PROVIDERS if not quick else PROVIDERS[:1] + [rng.choice(PROVIDERS[1:])]):
+        out = run_each(drv, [j[1] for j in jobs], env={"QPDF_CRYPTO_PROVIDER": prov}, workers=4)
+        tie = []
+        by_input = {}
+        for (what, line, exp, desc), o in zip(jobs, out):
+            by_input.setdefault((what, desc["key"], desc["length"]), []).append((desc, o))
+        for (what, line, exp, desc), o in zip(jobs, out):
+            if o == exp:
+                continue
+            others = [oo for dd, oo in by_input[(what, desc["key"], desc["length"])]]
+            if len(set(others)) > 1 or o.startswith(("!", "?")):
+                # the pipeline's output depends on how the same bytes are cut into write() calls (or it failed): a
+                # failing input of the implementation whatever the model says; first differing byte for the report
+                a, b = o, exp
+                pos = next((i // 2 for i in range(0, min(len(a), len(b)), 2) if a[i:i + 2] != b[i:i + 2]), min(len(a), len(b)) // 2)
+                chk.violation({"kind": "property-fails-on-implementation", "part": "prim-big", "provider": prov,
+                               "what": "%s: one large write() and small writes of the same data give different output (first wrong byte at offset %d)" % (desc["pipeline"], pos),
+                               "case": desc, "data": "the first %d bytes of random.Random(%r).randbytes" % (desc["length"], "C05/%s/primbig" % chk.seed)})
+            else:
+                tie.append((desc, o[:64], exp[:64]))
+        if tie:
+            chk.violation({"kind": "correspondence-broken", "correspondence": "corr:C05:prim-big", "provider": prov, "differing_cases": len(tie),
+                           "first_case": tie[0][0], "implementation": tie[0][1], "model": tie[0][2]}, no_input=True)
+        chk.count("prim-big-" + prov, len(jobs), set((j[0], j[3]["length"], tuple(j[3]["writes"])) for j in jobs),
+                  samples=[{"case": jobs[1][3]}])
+
+
 
 
 def rpass(rng, kind):
@@ -398,8 +489,10 @@ class Source:
             prefs.append(d.add(D(Type=N("Page"), Parent=pages, Contents=cs, Resources=D(Font=D(F1=font)), Annots=[annot],
                                  QVStr=self.string(rng.choice(["plain", "esc", "bin"])))))
         d.objects[pages.n] = D(Type=N("Pages"), Count=npages, Kids=prefs, MediaBox=[0, 0, 612, 792])
-        lens = [0, 1, 15, 16, 17, 31, 32, 33, 100] + ([5000] if big else [])
-        extra = [d.add(self.stream(D(QVS=self.string("plain")), length=n)) for n in rng.sample(lens, 4) + [0]]
+        lens = [0, 1, 15, 16, 17, 31, 32, 33, 100] + ([5000] if big is True else [])
+        # big = an integer: one stream of exactly that many incompressible bytes (aimed at the 64 KiB pieces of Pl_RC4)
+        extra = [d.add(self.stream(D(QVS=self.string("plain")), length=n))
+                 for n in rng.sample(lens, 4) + [0] + ([big] if (big and big is not True) else [])]
         nested = [self.string("plain"), [self.string("esc"), D(K=self.string("bin"), E=Str(b""))], self.string("len16"), self.string("len32"),
                   self.string("len15"), self.string("long")]
         self.empty_strings += 1
@@ -616,7 +709,19 @@ def run_e2e(chk, cases, runner, work):
             if isinstance(o, Stream):
                 dec_lines.append("isodec %d %d %s %d %d %s" % (info["R"], aes, key, og[0], og[1], hexs(o.data)))
                 dec_meta.append((f, "stream", og, (), o.data))
-    dec_out = common.run_lines(runner, dec_lines, shards=8)
+    big_ix = [i for i, l in enumerate(dec_lines) if len(l) > 100000]
+    small_ix = [i for i in range(len(dec_lines)) if len(dec_lines[i]) <= 100000]
+    import threading
+    big_res = {}
+    th = threading.Thread(target=lambda: big_res.update(zip(big_ix, run_each(runner, [dec_lines[i] for i in big_ix]))))
+    th.start()
+    small_out = common.run_lines(runner, [dec_lines[i] for i in small_ix], shards=8)
+    th.join()
+    dec_out = [None] * len(dec_lines)
+    for i, o in zip(small_ix, small_out):
+        dec_out[i] = o
+    for i in big_ix:
+        dec_out[i] = big_res[i]
     for (f, kind, og, path, ct), out in zip(dec_meta, dec_out):
         pt = None
         if out.startswith("ok"):
@@ -791,6 +896,15 @@ def part_e2e(chk, drv, runner, quick):
     for s, m in plan:
         cases.append(e2e_case(rng, idx, s, m, big=(idx % 7 == 3)))
         idx += 1
+    # streams larger than two 64 KiB pieces of Pl_RC4's single write(), every RC4 scheme (and AES for comparison),
+    # uncompressed and compressed (random data: the Flate output is as long)
+    if quick:
+        bigplan = [("R2", "nocompress", 140001), ("R3", "plain", 140001), ("R4rc4", "nocompress", 140001)]
+    else:
+        bigplan = [(sch, "nocompress", n) for sch in ("R2", "R3", "R4rc4", "R4rc4-clear") for n in BIG_SIZES[1:]]
+        bigplan += [(sch, m, 200001) for sch in ("R2", "R3", "R4rc4", "R4aes", "R6") for m in ("plain", "objstm", "lin")]
+    for sch, m, n in bigplan:
+        cases.append(e2e_case(rng, idx, sch, m, big=n, pwkinds=("ascii", "ascii"))); idx += 1
     # over-long passwords (V5: longer than 127 bytes) and V4 truncation at 32
     for s, kinds in [("R5", ("128", "ascii")), ("R5", ("ascii", "140"))] + ([] if quick else [("R6", ("128", "140"))]):
         cases.append(e2e_case(rng, idx, s, "plain", pwkinds=kinds)); idx += 1
@@ -990,7 +1104,7 @@ def run(chk):
     # derived generator), then the slow parts (Algorithm 2.B in extracted code) run side by side
     import random
     base = chk.rng
-    rngs = {n: random.Random("%s/%s/%s" % (chk.pid, chk.seed, n)) for n in ("prim", "kdf", "perm", "permcli", "e2e", "gates")}
+    rngs = {n: random.Random("%s/%s/%s" % (chk.pid, chk.seed, n)) for n in ("prim", "primbig", "kdf", "perm", "permcli", "e2e", "gates")}
 
     class View:
         """what a part sees of the check: its own generator, shared bookkeeping"""
@@ -1016,7 +1130,7 @@ def run(chk):
         chk.cov["timing_s"][name] = round(time.time() - t0, 1)
     for t in ths:
         t.start()
-    for name, part in (("prim", part_prim), ("perm", part_perm), ("permcli", part_permcli), ("gates", part_gates)):
+    for name, part in (("prim", part_prim), ("perm", part_perm), ("permcli", part_permcli), ("gates", part_gates), ("primbig", part_primbig)):
         timed_view(name, part)
     for t in ths:
         t.join()
@@ -1031,6 +1145,15 @@ def replay(chk, rep):
     if isinstance(c, dict) and c.get("kind") == "e2e":
         c = {k: v for k, v in c.items() if k != "qpdf_args"}
         n, files = run_e2e(chk, [c], runner, common.workdir("C05-replay"))
+    elif rep.get("part") == "prim-big" or rep.get("correspondence") == "corr:C05:prim-big":
+        import random
+
+        class V:
+            rng = random.Random("%s/%s/primbig" % (chk.pid, chk.seed))
+
+            def __getattr__(self, k):
+                return getattr(chk, k)
+        part_primbig(V(), drv, runner, chk.tier == "quick")
     elif rep.get("first_case") and isinstance(rep["first_case"], str):
         l = rep["first_case"]
         print("implementation:", common.run_lines(drv, [l])[0][:1000])
